@@ -760,6 +760,9 @@ class SigmaCorrelationRule(SigmaRuleBase, ProcessingItemTrackingMixin):
         if self.condition is not None:
             dc["condition"] = self.condition.to_dict()
 
+        if self.generate:  # the default (False) is not written
+            dc["generate"] = True
+
         d["correlation"] = dc
 
         return d
